@@ -259,7 +259,11 @@ class UniformGenerator(Generator):
             vectors.append([])
             delta = (parameter['bounds'][1] - parameter['bounds'][0]) / (self.number - 1)
             for i in range(self.number):
-                vectors[-1].append(parameter['bounds'][0] + i * delta)
+                if i == self.number - 1:
+                    # lb + (n - 1) * ((ub - lb) / (n - 1)) is not ub in floating point when |lb| >> |ub|
+                    vectors[-1].append(parameter['bounds'][1])
+                else:
+                    vectors[-1].append(parameter['bounds'][0] + i * delta)
 
         result = []
         for combination in itertools.product(*vectors):
